@@ -39,6 +39,14 @@ type State struct {
 	fresh   []Term
 	dead    bool
 	callCnt map[string]int
+	callLog map[string]callRec
+}
+
+type callRec struct {
+	args []SVal
+	argT []types.Type
+	res  SVal
+	resT types.Type
 }
 
 func (st *State) clone() *State {
@@ -66,6 +74,10 @@ func (st *State) clone() *State {
 	n.callCnt = make(map[string]int, len(st.callCnt))
 	for k, v := range st.callCnt {
 		n.callCnt[k] = v
+	}
+	n.callLog = make(map[string]callRec, len(st.callLog))
+	for k, v := range st.callLog {
+		n.callLog[k] = v
 	}
 	n.loops = append([]*Loop(nil), st.loops...)
 	n.defers = append([]deferRec(nil), st.defers...)
